@@ -238,6 +238,10 @@ class LoopRecord:
         return f"<loop {self.__dict__}>"
 
 
+class LoopNotCounting(AnalysisError):
+    """the continue-test of a run loop is not one comparison of the step counter with a loop-invariant step count"""
+
+
 class Driver:
     """One interpreter with the stubs installed.  `facts` are the ordering assumptions among the symbolic steps."""
 
@@ -291,7 +295,9 @@ class Driver:
         if gradient is not None:
             gc = Obj(ix.cls("fdtdx.config.GradientConfig"), dict(method=gradient.get("method"), num_checkpoints=gradient.get("num_checkpoints", atom("n_ckpt")),
                      num_checkpoints_reversible=gradient.get("num_checkpoints_reversible", 0), recorder=gradient.get("recorder", Obj(None, {}, "recorder"))), "gradient_config")
-        return Obj(ix.cls("fdtdx.config.SimulationConfig"), dict(time_steps_total=T, gradient_config=gc, backend="cpu"), "config")
+        # time / time_step_duration are given as unrelated symbols: a loop bound or stopping rule that counts in
+        # physical time instead of time_steps_total shows up as a bound the step count cannot be compared with
+        return Obj(ix.cls("fdtdx.config.SimulationConfig"), dict(time_steps_total=T, gradient_config=gc, backend="cpu", time=atom("cfg_time"), time_step_duration=atom("cfg_dt")), "config")
 
     # ---------------------------------------------------------------- stubs
     def _install(self):
@@ -427,7 +433,7 @@ class Driver:
         _, log = self._observe_cond(cond, probe)
         cmps = [(op, x, y) for op, x, y in log if tau.atoms() & (to_rat(x).atoms() | to_rat(y).atoms())]
         if len(cmps) != 1:
-            raise AnalysisError(f"while_loop summary: the condition is not a single comparison of the step counter ({len(cmps)} comparisons observed)")
+            raise LoopNotCounting(f"while_loop summary: the condition is not a single comparison of the step counter ({len(cmps)} comparisons observed)")
         op, x, y = cmps[0]
         x, y = to_rat(x), to_rat(y)
         if x.equals(tau):
@@ -435,9 +441,9 @@ class Driver:
         elif y.equals(tau):
             bound, rel = x, {"lt": "gt", "gt": "lt", "le": "ge", "ge": "le"}.get(op, op)
         else:
-            raise AnalysisError("while_loop summary: the step counter enters the condition through an expression")
+            raise LoopNotCounting("while_loop summary: the step counter enters the condition through an expression")
         if rel not in ("lt", "le", "gt", "ge") or tau.atoms() & bound.atoms():
-            raise AnalysisError(f"while_loop summary: unsupported condition tau {rel} bound")
+            raise LoopNotCounting(f"while_loop summary: unsupported condition tau {rel} bound")
         if nested:
             self.last_reverse_body = (body, probe[0], probe[1])
         # body: one symbolic step
